@@ -46,6 +46,8 @@ var c20Sources = []string{
 	"package pkg\n\nimport str \"strings\"\n\nvar B = str.Repeat(\"b\", 2)\n",
 	"package pkg\n\n// C has no imports.\nconst C = 3\n",
 	"package pkg\n\nimport (\n\t\"bytes\"\n\t\"io\"\n)\n\nfunc D(w io.Writer) { w.Write(bytes.NewBufferString(\"d\").Bytes()) }\n",
+	// a raw string literal over several lines (its line breaks are part of the restored line table)
+	"package pkg\n\nconst H = `first\nsecond\n\tthird\n`\n\nfunc I() string { return H }\n",
 	// an import declaration without specs (legal, and gofmt leaves it alone)
 	"package pkg\n\nimport ()\n\nimport (\n\t\"fmt\"\n)\n\nvar G = fmt.Sprint()\n",
 	// generated code: a //line directive above the package clause names another file (goyacc style)
